@@ -140,6 +140,19 @@ def check_lexer_pairing(run: Run) -> None:
                 run.violation("R07.1", lx, "tokenize", f"Token(..., {nf_txt}) receipt position", f"`{line_arg}`/`{col_arg}` are reassigned between the construction of the token and its receipt, so the receipt does not carry the position of the rewritten occurrence", path=[cfg.nodes[i].lineno for i in path if cfg.nodes[i].lineno][:30])
     if n_tokens < 2:
         raise AnalysisError(f"tokenize: only {n_tokens} Token constructions with a normalized_from found (expected >= 2)")
+    # rewrite => marker: wherever the token's value is taken from the alias table, the marker is set to the text that was replaced
+    n_alias = 0
+    for a in walk_no_nested(fi.node):
+        if isinstance(a, ast.Assign) and isinstance(a.value, ast.Subscript) and isinstance(a.value.value, ast.Name) and a.value.value.id == "ASCII_ALIASES":
+            n_alias += 1
+            key = _text(a.value.slice)
+            blk = _block_of(a) or []
+            ok = any(isinstance(b, ast.Assign) and any(isinstance(t, ast.Name) and t.id == "normalized_from" for t in b.targets) and _text(b.value) == key for b in blk)
+            run.instance("R07.1", lx.loc(a), f"tokenize: `{_text(a)}` is accompanied by normalized_from = {key}", ok=ok)
+            if not ok:
+                run.violation("R07.1", lx, "tokenize", f"{_text(a)} without marker", f"the token's value is replaced by its alias-table entry but normalized_from is not set to the replaced text `{key}` beside it: the rewrite produces no receipt at all")
+    if n_alias < 1:
+        raise AnalysisError("tokenize: no `value = ASCII_ALIASES[...]` rewrite found")
 
     # R07.4 (a) receipts only under the marker
     for rid, d in receipts.items():
